@@ -60,6 +60,29 @@ Proof.
   - rewrite Z2N.id by lia. reflexivity.
 Qed.
 
+(* Deciding boolean combinations of integer comparisons: split on every comparison atom of the
+   goal, then both sides are literals, equal unless the hypotheses are contradictory. Used for
+   the agreement lemmas below so that a reordering or rephrasing of the tests in the source
+   (which leaves the decision unchanged) does not break them. *)
+Ltac split_atoms :=
+  repeat match goal with
+         | |- context [Z.eqb ?a ?b] => destruct (Z.eqb_spec a b)
+         | |- context [Z.ltb ?a ?b] => destruct (Z.ltb_spec a b)
+         | |- context [Z.leb ?a ?b] => destruct (Z.leb_spec a b)
+         end;
+  cbn [negb andb orb]; try reflexivity; try (exfalso; lia).
+
+Lemma nat_eqb0_Z n : Nat.eqb n 0 = (Z.of_nat n =? 0).
+Proof. destruct n; reflexivity. Qed.
+Lemma N_eqb0_Z n : N.eqb n 0 = (Z.of_N n =? 0).
+Proof. destruct n; reflexivity. Qed.
+Lemma N_ltb_Z a b : (a <? b)%N = (Z.of_N a <? Z.of_N b).
+Proof. destruct (a <? b)%N eqn:E1; destruct (Z.of_N a <? Z.of_N b) eqn:E2; try reflexivity;
+  try (apply N.ltb_lt in E1); try (apply N.ltb_ge in E1); try (apply Z.ltb_lt in E2); try (apply Z.ltb_ge in E2); lia. Qed.
+Lemma N_leb_Z a b : (a <=? b)%N = (Z.of_N a <=? Z.of_N b).
+Proof. destruct (a <=? b)%N eqn:E1; destruct (Z.of_N a <=? Z.of_N b) eqn:E2; try reflexivity;
+  try (apply N.leb_le in E1); try (apply N.leb_gt in E1); try (apply Z.leb_le in E2); try (apply Z.leb_gt in E2); lia. Qed.
+
 (* BatchConfig.EnsureValid and ShutterApp.checkConfig, as read off the source on this run,
    decide what the model's ensure_valid / check_config decide (for slices of Go-representable
    length; the model's last conjunct is that side condition). *)
@@ -68,32 +91,17 @@ Lemma ensure_valid_agrees c :
   gen_ensure_valid (Z.of_nat (List.length (c_keypers c))) (Z.of_N (c_threshold c)) &&
   (Z.of_nat (List.length (c_keypers c)) <? two63).
 Proof.
-  unfold ensure_valid, gen_ensure_valid, two63.
+  unfold ensure_valid, two63. rewrite nat_eqb0_Z, N_eqb0_Z.
   set (n := Z.of_nat (List.length (c_keypers c))).
-  assert (Hn : n = Z.of_nat (List.length (c_keypers c))) by reflexivity.
-  destruct (Nat.eqb (List.length (c_keypers c)) 0) eqn:E0.
-  - apply Nat.eqb_eq in E0. replace (n =? 0) with true by (symmetry; apply Z.eqb_eq; lia). reflexivity.
-  - apply Nat.eqb_neq in E0. replace (n =? 0) with false by (symmetry; apply Z.eqb_neq; lia).
-    destruct (N.eqb (c_threshold c) 0) eqn:E1.
-    + apply N.eqb_eq in E1. rewrite E1. reflexivity.
-    + apply N.eqb_neq in E1. replace (Z.of_N (c_threshold c) =? 0) with false by (symmetry; apply Z.eqb_neq; lia).
-      cbn [negb andb].
-      destruct (n <? 9223372036854775808) eqn:E2.
-      * apply Z.ltb_lt in E2. rewrite (Z.mod_small n) by lia.
-        destruct (n <? Z.of_N (c_threshold c)); reflexivity.
-      * rewrite !andb_false_r. reflexivity.
+  assert (Hn : 0 <= n) by (unfold n; lia).
+  set (t := Z.of_N (c_threshold c)).
+  destruct (Z.ltb_spec n 9223372036854775808) as [Hlt|Hge].
+  - rewrite !andb_true_r. unfold gen_ensure_valid. cbv zeta.
+    rewrite ?(Z.mod_small n 18446744073709551616) by lia.
+    split_atoms.
+  - rewrite !andb_false_r. reflexivity.
 Qed.
 
-Lemma N_ltb_Z a b : (a <? b)%N = (Z.of_N a <? Z.of_N b).
-Proof. destruct (a <? b)%N eqn:E1; destruct (Z.of_N a <? Z.of_N b) eqn:E2; try reflexivity;
-  try (apply N.ltb_lt in E1); try (apply N.ltb_ge in E1); try (apply Z.ltb_lt in E2); try (apply Z.ltb_ge in E2); lia. Qed.
-Lemma N_leb_Z a b : (a <=? b)%N = (Z.of_N a <=? Z.of_N b).
-Proof. destruct (a <=? b)%N eqn:E1; destruct (Z.of_N a <=? Z.of_N b) eqn:E2; try reflexivity;
-  try (apply N.leb_le in E1); try (apply N.leb_gt in E1); try (apply Z.leb_le in E2); try (apply Z.leb_gt in E2); lia. Qed.
-
-(* The proofs below first rewrite the model's comparisons into the translator's vocabulary and
-   then split on every atom, so that a reordering of the tests in the source (which leaves the
-   decision unchanged) does not break them. *)
 Lemma check_config_agrees s c lc :
   last_opt (configs s) = Some lc ->
   Z.of_nat (List.length (c_keypers c)) < two63 ->
@@ -103,8 +111,8 @@ Lemma check_config_agrees s c lc :
 Proof.
   intros Hl Hlen. unfold check_config, gen_check_config. rewrite Hl, ensure_valid_agrees, N_ltb_Z, N_leb_Z.
   replace (Z.of_nat (List.length (c_keypers c)) <? two63) with true by (symmetry; apply Z.ltb_lt; exact Hlen).
-  rewrite andb_true_r.
-  destruct (gen_ensure_valid _ _), (Z.of_N (c_act c) <? Z.of_N (c_act lc)), (Z.of_N (c_index c) <=? Z.of_N (c_index lc)); reflexivity.
+  rewrite andb_true_r. cbv zeta.
+  destruct (gen_ensure_valid _ _); cbn [negb]; split_atoms.
 Qed.
 
 (* CheckTxState.AddTx as read off the source decides the CheckTx code of the model (for a
@@ -117,10 +125,9 @@ Lemma add_tx_agrees s signer chain nonce p :
                    (negb (nonce_used (chk_nonces s) signer nonce))
   then 0%N else 1%N.
 Proof.
-  intros Hc Hn. unfold check_tx, gen_add_tx_ok. rewrite Hc, Hn. cbn [negb].
-  replace (0 <? Z.of_nat (List.length (chk_members s))) with (negb (Nat.eqb (List.length (chk_members s)) 0))
-    by (destruct (chk_members s); reflexivity).
+  intros Hc Hn. unfold check_tx, gen_add_tx_ok. rewrite Hc, Hn. cbn [negb]. cbv zeta.
+  rewrite nat_eqb0_Z.
   change gen_max_txs_per_block with max_txs_per_block.
-  destruct (Nat.eqb (List.length (chk_members s)) 0), (mem_addr signer (chk_members s)),
-    (max_txs_per_block <=? _), (nonce_used (chk_nonces s) signer nonce); reflexivity.
+  assert (H0 : 0 <= Z.of_nat (List.length (chk_members s))) by lia.
+  destruct (mem_addr signer (chk_members s)), (nonce_used (chk_nonces s) signer nonce); split_atoms.
 Qed.
